@@ -57,14 +57,17 @@ func (a *chunkError) unmarshal(raw []byte) error {
 		return fmt.Errorf("%w, actually is %s", ErrChunkTypeNotCtError, a.typ.String())
 	}
 
-	offset := chunkHeaderSize
-	for len(raw)-offset >= 4 {
-		e, err := buildErrorCause(raw[offset:])
+	// Only the chunk's own value holds its error causes; raw may extend to
+	// the chunks bundled after this one. Each cause is padded to a multiple of
+	// 4 bytes and the padding is not included in its length.
+	offset := 0
+	for len(a.raw)-offset >= errorCauseHeaderLength {
+		e, err := buildErrorCause(a.raw[offset:])
 		if err != nil {
 			return fmt.Errorf("%w: %v", ErrBuildErrorChunkFailed, err) //nolint:errorlint
 		}
 
-		offset += int(e.length())
+		offset += int(e.length()) + getPadding(int(e.length()))
 		a.errorCauses = append(a.errorCauses, e)
 	}
 
@@ -75,12 +78,15 @@ func (a *chunkError) marshal() ([]byte, error) {
 	a.chunkHeader.typ = ctError
 	a.flags = 0x00
 	a.raw = []byte{}
-	for _, ec := range a.errorCauses {
+	for i, ec := range a.errorCauses {
 		raw, err := ec.marshal()
 		if err != nil {
 			return nil, err
 		}
 		a.raw = append(a.raw, raw...)
+		if i != len(a.errorCauses)-1 {
+			a.raw = padByte(a.raw, getPadding(len(raw)))
+		}
 	}
 
 	return a.chunkHeader.marshal()
